@@ -208,7 +208,7 @@ def check_heap(rep, repo: Repo, pre: str = "") -> None:
     # ---- H4 index algebra -----------------------------------------------------
     for name, want in (("dad", None), ("left_son", {("param", "_"): 2, 1: 1}), ("right_son", {("param", "_"): 2, 1: 2})):
         w = W[name]
-        rets = [e for e in w.events if e.kind == "return"]
+        rets = [e for e in w.events if e.kind == "return" and e.fn is w.entry]
         if len(rets) != 1:
             raise AnalysisError(f"Heap.{name}: expected a single return")
         prm = ("param", w.entry.params[1])
@@ -478,7 +478,7 @@ def check_heap(rep, repo: Repo, pre: str = "") -> None:
 
     # ---- H6 capacity ------------------------------------------------------------------
     def ret_cond(w: Walker) -> Optional[Term]:
-        rets = [e for e in w.events if e.kind == "return"]
+        rets = [e for e in w.events if e.kind == "return" and e.fn is w.entry]
         if len(rets) == 1 and not rets[0].guards:
             return rets[0].value
         true_r = [e for e in rets if e.value == ("const", True)]
@@ -520,7 +520,7 @@ def check_heap(rep, repo: Repo, pre: str = "") -> None:
             rep.ev(pre + "H6-exact-guard", e, not extra or allowed,
                    "" if not extra or allowed else f"{name} performs this step only when '{show(extra[0])[:80]}': on the other "
                    "inputs the heap is left in an inconsistent / unsifted state")
-        fails = [e for e in w.events if e.kind == "return" and has_guard(e.guards, mk_not(guard))]
+        fails = [e for e in w.events if e.kind == "return" and e.fn is w.entry and has_guard(e.guards, mk_not(guard))]
         okr = len(fails) == 1 and fails[0].value in (("const", False), ("const", None), ("const", 0))
         rep.fn(pre + "H6-fail", w.entry, f"{name} reports failure when {test}()", okr,
                "the failing path must return a falsy value and nothing else")
@@ -540,7 +540,7 @@ def check_heap(rep, repo: Repo, pre: str = "") -> None:
             rep.fn(pre + "H6-sift", w.entry, "the new element is sifted up from last",
                    len(sift) == 1 and sift[0].seq > ls and (not place or sift[0].seq > place[0].seq),
                    "go_up(last) must follow the placement")
-            rt = [e for e in w.events if e.kind == "return" and has_guard(e.guards, guard)]
+            rt = [e for e in w.events if e.kind == "return" and e.fn is w.entry and has_guard(e.guards, guard)]
             rep.fn(pre + "H6-ok", w.entry, "insert reports success", len(rt) == 1 and rt[0].value == ("const", True),
                    "the successful path must return True")
         else:
@@ -556,7 +556,7 @@ def check_heap(rep, repo: Repo, pre: str = "") -> None:
             sift = [e for e in w.events if e.kind == "call" and e.name == "go_down" and e.args == (("const", 0),)]
             rep.fn(pre + "H6-sift", w.entry, "the root is sifted down after the heap shrank",
                    len(sift) == 1 and sift[0].seq > ls, "go_down(0) must follow last -= 1")
-            rt = [e for e in w.events if e.kind == "return" and has_guard(e.guards, guard)]
+            rt = [e for e in w.events if e.kind == "return" and e.fn is w.entry and has_guard(e.guards, guard)]
             okr = len(rt) == 1 and removed(rt[0].value, rt[0].seq)
             rep.fn(pre + "H6-ok", w.entry, "remove returns the element that was at the root", okr,
                    f"returns '{show(rt[0].value) if rt else '?'}'")
